@@ -532,11 +532,13 @@ def run(ctx):
             ("graph3", dict(Mode=q("graph"), N=3, SelfLoops=not quick), None),
             # 4 functions: random walks inside the closed domain (every walk ends in a complete unit) for the
             # replay; the thorough tier also model-checks the whole N = 4 graph below
-            ("graph4", dict(Mode=q("graph"), N=4, SelfLoops=True), 6 if quick else 60)]
+            ("graph4", dict(Mode=q("graph"), N=4, SelfLoops=True), 12 if quick else 60)]
     for tag, consts, sim in plan:
         out = os.path.join(ctx.scratch, "units-%s.ndjson" % tag)
         if sim:
-            g = gen(ctx, out, Emit=True, simulate=sim, depth=20, extra=["-seed", str(ctx.seed + 1)], **consts)
+            # fixed TLC seed and one worker: the same walks in every run, so that what the unchanged tree does on
+            # them is known; VERIF_SEED only selects among them (vt.subsample below)
+            g = gen(ctx, out, Emit=True, simulate=sim, depth=20, extra=["-seed", "15"], workers=1, **consts)
         else:
             g = gen(ctx, out, Emit=True, **consts)
         if not g.ok:
@@ -575,11 +577,13 @@ def run(ctx):
     for tag, cases in allcases:
         stride = 1
         if quick:
-            stride = dict(obj=3, fn=1, graph2=1, graph3=8, graph4=2).get(tag, 1)
+            stride = dict(obj=3, fn=1, graph2=1, graph3=8, graph4=4).get(tag, 1)
         else:            # thorough: TLC still checks every state; the two largest families are replayed in part
             stride = dict(obj=2, graph3=3).get(tag, 1)
         if os.environ.get("VERIF_C15_ORACLE") == "units":
             validate_oracle(ctx, tree, cases, tag)
+        if os.environ.get("VERIF_C15_ALL"):      # development aid: replay the whole generated domain of this tier
+            stride = 1
         sel = vt.subsample(cases, ctx.seed, stride)
         total[tag] = (len(cases), len(sel))
         mid = sel[len(sel) // 2]
@@ -609,7 +613,9 @@ def run(ctx):
         print("oracle validation link: %d cases, %d disagreements" % (len(links), n))
     okc = [c for c in links if c["pred"]["link"] == "ok"]
     failc = [c for c in links if c["pred"]["link"] == "fail"]
-    lsel = vt.subsample(okc, ctx.seed, 2 if quick else 1) + vt.subsample(failc, ctx.seed, 10 if quick else 1)
+    lsel = vt.subsample(okc, ctx.seed, 2 if quick else 1) + vt.subsample(failc, ctx.seed, 10 if quick else 2)
+    if os.environ.get("VERIF_C15_ALL"):
+        lsel = links
     mid = lsel[len(lsel) // 3]
     ctx.sample(dict(kind="link", cfg=mid["cfg"], u1=render_link_unit(0, 1, mid["u1"], 101), u2=render_link_unit(0, 2, mid["u2"], 102),
                     predicted=mid["pred"]))
